@@ -3,6 +3,8 @@
 package attestations
 
 import (
+	"math"
+
 	"github.com/ethereum/go-ethereum/accounts/abi"
 
 	errorsmod "cosmossdk.io/errors"
@@ -151,6 +153,12 @@ func ABIDecodeStateAttestation(data []byte) (*StateAttestation, error) {
 	timestampSeconds, ok := unpacked[1].(uint64)
 	if !ok {
 		return nil, errorsmod.Wrap(ErrInvalidAttestationData, "invalid timestamp type")
+	}
+
+	// the timestamp is stored in nanoseconds: reject values whose conversion would overflow uint64,
+	// otherwise distinct attested timestamps could map to the same consensus state timestamp.
+	if timestampSeconds > math.MaxUint64/nanosPerSecond {
+		return nil, errorsmod.Wrapf(ErrInvalidTimestamp, "timestamp %d seconds overflows uint64 nanoseconds", timestampSeconds)
 	}
 
 	return &StateAttestation{
